@@ -197,6 +197,10 @@ def unrolled_for(eng, s, items, i, st):
 
 
 def eval_invariants(eng, spec, st, label, node, establish):
+    # locals first assigned inside the loop are undefined (arbitrary) before the first iteration
+    for nm, k in spec.get("kinds", {}).items():
+        if nm not in st.locals and hasattr(k, "sort"):
+            st.locals[nm] = fresh(k, nm + "_undef")
     for n, inv in enumerate(spec.get("invariants", [])):
         tree = inv if isinstance(inv, ast.AST) else ast.parse(inv, mode="eval").body
         t = eng.ev_merged(tree, st, want_bool=True)
@@ -462,6 +466,21 @@ def inline_contextmanager(eng, fs, call, item, s, st):
 # ---------------------------------------------------------------------- comprehensions
 def comprehension(models, eng, e, st, how):
     from .models import VGen
+    # {k: v for k, v in X.items()} on a schema object with a `dictcopy` handler: a plain copy of the mapping
+    if how == "dict" and len(e.generators) == 1 and not e.generators[0].ifs:
+        g0 = e.generators[0]
+        if (isinstance(g0.iter, ast.Call) and isinstance(g0.iter.func, ast.Attribute) and g0.iter.func.attr == "items"
+                and isinstance(g0.target, ast.Tuple) and len(g0.target.elts) == 2
+                and isinstance(e.key, ast.Name) and isinstance(e.value, ast.Name)
+                and e.key.id == g0.target.elts[0].id and e.value.id == g0.target.elts[1].id):
+            for st1, src in eng.ev(g0.iter.func.value, st):
+                if isinstance(src, V) and isinstance(src.kind, Ref):
+                    h = eng.schema.get(src.kind.cls, {}).get("dictcopy")
+                    if h is not None:
+                        yield st1, h(eng, st1, src)
+                        continue
+                raise Untranslatable("dict comprehension copy of an unsupported mapping", e)
+            return
     gens = e.generators
     if any(g.is_async for g in gens):
         raise Untranslatable("async comprehension", e)
